@@ -14,6 +14,7 @@ static std::vector<double> evolve_ref(const ref::Basis& B, const Mat& A, const s
 
 static void check_case(int d, const std::vector<double>& E, double t, const Alpha& al, bool extras) {
   const ref::Basis& B = ref::basis(d);
+  maybe_pollute(d, 97);
   SU_vector H = mkvec(d, B.proj(ref::diag(E)));
   double Emax = 0; for (double e : E) Emax = std::max(Emax, std::fabs(e));
   // the caller's buffer has a history: PrepareEvolve must overwrite every entry whatever it held before
@@ -39,6 +40,14 @@ static void check_case(int d, const std::vector<double>& E, double t, const Alph
     double e2 = maxdiff(g2, want);
     maxstat("twostep_err/tol", e2 / tol);
     if ((int)r2.Dim() != d || !(e2 <= tol)) violation("PrepareEvolve+Evolve(buffer):mismatch:d=" + std::to_string(d), J().i("d", d).arr("spectrum", E).num("t", t).arr("A", a).arr("got", g2).arr("want", want).num("err", e2).num("tol", tol).done());
+    if (ai + 3 >= al.vecs.size() || ai == 0) {   // probes and the identity: the result consumed by += / -= into an unrelated vector
+      std::vector<double> w0 = probe(d, 2); SU_vector wp = mkvec(d, w0), wm = mkvec(d, w0), wq = mkvec(d, w0);
+      wp += A.Evolve(H, t); wm -= A.Evolve(buf.data()); wq += A.Evolve(buf.data());
+      std::vector<double> gp = comps(wp), gm = comps(wm), gq = comps(wq); double ep = 0, em = 0, eq = 0;
+      for (int k = 0; k < d * d; k++) { ep = std::max(ep, std::fabs(gp[k] - (w0[k] + want[k]))); em = std::max(em, std::fabs(gm[k] - (w0[k] - want[k]))); eq = std::max(eq, std::fabs(gq[k] - (w0[k] + want[k]))); }
+      double tol2 = tol + 4 * ref::EPS * (maxabs(w0) + amag); count("evaluations");
+      if (!(ep <= tol2) || !(em <= tol2) || !(eq <= tol2)) violation("Evolve:consumed-by-compound-assignment:d=" + std::to_string(d), J().i("d", d).arr("spectrum", E).num("t", t).arr("A", a).arr("w", w0).arr("w+=direct", gp).arr("w-=twostep", gm).num("err+=", ep).num("err-=", em).done());
+    }
     if (t == 0) {
       for (int k = 0; k < d * d; k++) if (!(g1[k] == a[k]) || !(g2[k] == a[k])) { violation("Evolve:t=0-not-identity:d=" + std::to_string(d), J().i("d", d).arr("spectrum", E).arr("A", a).arr("direct", g1).arr("twostep", g2).done()); break; }
     }
